@@ -36,7 +36,7 @@ func ruleFramingSingleConsumer(c *chk.Ctx) {
 	}
 	for _, f := range pkgFuncs(c, c.M.ChanPkg) {
 		root := ir.Root(f)
-		inRecv := root.Name() == "Recv" && root.Signature.Recv() != nil
+		inRecv := ir.BaseName(root) == "Recv" && root.Signature.Recv() != nil
 		ir.Instrs(f, func(ins ssa.Instruction) {
 			switch x := ins.(type) {
 			case *ssa.Go:
@@ -74,7 +74,7 @@ func ruleFramingSingleConsumer(c *chk.Ctx) {
 func ruleQueryFromParsedForm(c *chk.Ctx) {
 	n := 0
 	for _, f := range pkgFuncs(c, c.M.JhttpPkg) {
-		if f.Parent() != nil || !ir.Exported(f) || f.Signature.Recv() != nil || !strings.HasPrefix(f.Name(), "Parse") {
+		if f.Parent() != nil || !ir.Exported(f) || f.Signature.Recv() != nil || !strings.HasPrefix(ir.BaseName(f), "Parse") {
 			continue
 		}
 		var pf *ssa.Call
@@ -317,7 +317,7 @@ func ruleLengthIsDecimal(c *chk.Ctx) {
 // into the server that could act on a later request with the same id.
 func ruleCancelEntryHasNoOtherEffect(c *chk.Ctx) {
 	for _, f := range pkgFuncs(c, c.M.Pkg) {
-		if f.Parent() != nil || !ir.Exported(f) || ir.RecvNamed(f) != c.M.Server || f.Name() != "CancelRequest" {
+		if f.Parent() != nil || !ir.Exported(f) || ir.RecvNamed(f) != c.M.Server || ir.BaseName(f) != "CancelRequest" {
 			continue
 		}
 		bad := ""
@@ -554,6 +554,15 @@ func ruleLockBalanced(c *chk.Ctx, owner string) {
 		}
 		return false
 	}
+	// a private function that returns with the lock held on every path (entered without it) is
+	// the Lock, spelled as a helper: its calls are the acquisitions to balance
+	acquirer := func(g *ssa.Function) bool {
+		fi := c.F.Funcs[g]
+		if fi == nil || !fi.Sum.ExitHeld[lock] || (fi.Entry != nil && fi.Entry.Has(facts.Held, lock)) {
+			return false
+		}
+		return g.Parent() == nil && !ir.Exported(g) && !c.P.UsedAsValue(g) && len(c.P.Callers(g)) > 0
+	}
 	for _, f := range pkgFuncs(c, c.M.Pkg) {
 		ir.Instrs(f, func(ins ssa.Instruction) {
 			call, ok := ins.(*ssa.Call)
@@ -561,7 +570,16 @@ func ruleLockBalanced(c *chk.Ctx, owner string) {
 				return
 			}
 			op, lp, isOp := c.F.MutexOp(&call.Call)
+			viaHelper := false
+			if !isOp {
+				if g := call.Call.StaticCallee(); g != nil && c.P.InRepo[g] && acquirer(g) {
+					op, lp, isOp, viaHelper = "lock", lock, true, true
+				}
+			}
 			if !isOp || op != "lock" || lp != lock {
+				return
+			}
+			if !viaHelper && acquirer(f) {
 				return
 			}
 			n++
